@@ -59,7 +59,7 @@ static void add_matrix(Output &o, const std::string &name, const amgcl::backend:
 
 struct World {
     int comp; gen::Csr A, B; std::vector<double> x, y, z; long sub; long k; int sort; int fam;
-    long coarsening, relax, solver, coarse_enough, npre, ncycle, power_iters;
+    long coarsening, relax, solver, coarse_enough, npre, ncycle, power_iters, maxiter;
 };
 
 typedef amgcl::make_solver<
@@ -75,7 +75,7 @@ static void hier_run(const World &w, Output &o, int cls) {
     typedef amgcl::amg<DBackend, recorder<Coarsening>::template type, amgcl::relaxation::spai0> AMG;
     typename AMG::params prm;
     prm.coarse_enough = (unsigned)w.coarse_enough; prm.npre = (unsigned)w.npre; prm.npost = (unsigned)w.npre; prm.ncycle = (unsigned)w.ncycle;
-    if (w.ncycle > 1) prm.max_levels = 6;      // a W-cycle over a deep hierarchy costs 2^levels
+    if (w.ncycle > 1) prm.max_levels = 4;      // a W-cycle over a deep hierarchy costs 2^levels
     level_log().clear();
     gen::Csr A = w.A;
     AMG amg(A.tie(), prm);
@@ -198,9 +198,9 @@ static Output run_component(const World &w) {
         p.put("precond.relax.type", relax_names[w.relax]);
         p.put("precond.coarse_enough", w.coarse_enough);
         p.put("precond.npre", w.npre); p.put("precond.npost", w.npre); p.put("precond.ncycle", w.ncycle);
-        if (w.ncycle > 1) p.put("precond.max_levels", 6);      // a W-cycle over a deep hierarchy costs 2^levels
+        if (w.ncycle > 1) p.put("precond.max_levels", 4);      // a W-cycle over a deep hierarchy costs 2^levels
         p.put("solver.type", solver_names[w.solver]);
-        p.put("solver.maxiter", 200);
+        p.put("solver.maxiter", w.maxiter);
         if (w.power_iters > 0 && w.coarsening == 2) { p.put("precond.coarsening.estimate_spectral_radius", true); p.put("precond.coarsening.power_iters", w.power_iters); }
         if (w.power_iters > 0 && w.relax == 8) p.put("precond.relax.power_iters", w.power_iters);
         gen::Csr A = w.A;
@@ -213,8 +213,10 @@ static Output run_component(const World &w) {
         std::vector<double> x(n, 0.0);
         size_t it; double res; std::tie(it, res) = S(w.y, x);
         // Krylov iterations contain cross-thread reductions: bitwise at a fixed nt, rounding across nt
-        bool conv = res < 1e-8;
-        o.add("solution", x, (loose && !conv) ? SKIP : tid ? TIDSEEDED : (loose ? ROUNDING : REDUCTION), 0, max_abs(x));
+        // "converged" for the purpose of comparing solutions: reported AND true residual small (truthfulness itself is C01's)
+        long double rr = 0, ff = 0; for (long i = 0; i < n; ++i) { long double t = w.y[i]; for (ptrdiff_t j = w.A.ptr[i]; j < w.A.ptr[i+1]; ++j) t -= (long double)w.A.val[j] * x[w.A.col[j]]; rr += t * t; ff += (long double)w.y[i] * w.y[i]; }
+        bool conv = res < 1e-8 && std::sqrt((double)(rr / (ff > 0 ? ff : 1))) < 1e-6;
+        o.add("solution", x, (loose && !conv) ? SKIP : tid ? TIDSEEDED : (loose ? ROUNDING : (conv ? REDUCTION : SAME_NT_ONLY)), 0, max_abs(x));
         o.add1("iters", (double)it, loose ? SKIP : SAME_NT_ONLY, 0); o.add1("resid", res, loose ? SKIP : SAME_NT_ONLY, 0);
         o.add1("converged", conv ? 1 : 0, loose ? SKIP : BITWISE);
         break; }
@@ -288,8 +290,11 @@ Plan generate(uint64_t seed, uint64_t run, bool thorough) {
     p.set("npre", r.range(1, 2), 1);
     p.set("ncycle", r.range(1, 2), 1);
     p.set("power_iters", r.chance(0.3) ? r.range(1, 8) : 0, 0);
+    // bound the simulated work: a non-converging solve on a large team costs fiber switches, not insight
+    p.set("maxiter", (p.get("nt") > 8 || p.get("ncycle") > 1) ? 25 : 100, 1);
     p.set("cross_switch", r.chance(0.05) ? 1 : 0, 0);      // occasionally compare across the 16/17 SpGEMM switch
     draw_schedule(r, p.sched, (int)p.get("nt"));
+    p.sched.max_decisions = 2000000000ULL;      // long non-converging solves at 32 threads are legitimate; the wall-clock watchdog bounds them
     return p;
 }
 
@@ -312,7 +317,7 @@ static World make_world(const Plan &p) {
     w.z = gen::make_vector(w.A.n, vs + 2, 0);
     w.sub = p.get("sub"); w.k = p.get("k"); w.sort = (int)p.get("sort");
     w.coarsening = p.get("coarsening"); w.relax = p.get("relax"); w.solver = p.get("solver");
-    w.coarse_enough = p.get("coarse_enough"); w.npre = p.get("npre"); w.ncycle = p.get("ncycle"); w.power_iters = p.get("power_iters");
+    w.coarse_enough = p.get("coarse_enough"); w.npre = p.get("npre"); w.ncycle = p.get("ncycle"); w.power_iters = p.get("power_iters"); w.maxiter = p.get("maxiter", 100);
     return w;
 }
 
@@ -328,11 +333,24 @@ static Violation mk(const char *oracle, const World &w, const char *clause, cons
 
 // compare two outputs item by item; 'same_nt': both ran at the same thread count (schedule differs)
 static void compare(Result &res, const World &w, const Output &a, const Output &b, bool same_nt, bool same_spgemm, const char *what, int nta, int ntb) {
-    if (a.error != b.error) { res.fail(mk("outcome-differs", w, what, "error", a.error + " / " + b.error)); return; }
-    if (a.items.size() != b.items.size()) { res.fail(mk("outcome-differs", w, what, "items", fmt("%zu vs %zu items", a.items.size(), b.items.size()))); return; }
-    for (size_t i = 0; i < a.items.size(); ++i) {
+    bool tidcfg = w.power_iters > 0 && ((w.comp == C_SOLVE && (w.coarsening == 2 || w.relax == 8)) || w.comp == C_SPECTRAL);
+    bool discrete_amplification = (w.comp == C_HIER || w.comp == C_SOLVE) && (w.coarsening == 3 || !same_spgemm || tidcfg);
+    if (a.error != b.error) {
+        if (tidcfg && !same_nt) res.fail(mk("rounding-across-nt", w, "thread-seeded-random-vector", "error", a.error + " / " + b.error));
+        else if (!discrete_amplification) res.fail(mk("outcome-differs", w, what, "error", a.error + " / " + b.error));
+        return; }
+    if (a.items.size() != b.items.size()) {
+        // a different number of levels: rounding-level differences (unordered critical accumulation in emin, the other SpGEMM
+        // association) flipped a discrete coarsening decision; only the first level can be compared to rounding
+        if (!discrete_amplification) res.fail(mk("outcome-differs", w, what, "items", fmt("%zu vs %zu items", a.items.size(), b.items.size())));
+    }
+    for (size_t i = 0; i < a.items.size() && i < b.items.size(); ++i) {
         const Item &x = a.items[i], &y = b.items[i];
+        if (x.name != y.name) break;
         int cls = x.cls;
+        // beyond the first level discrete decisions (strength of connection, aggregation) may amplify rounding differences
+        if (discrete_amplification && w.comp == C_HIER && !(x.name == "P0" || x.name == "R0" || x.name == "Ac0")) continue;
+        if (discrete_amplification && w.comp == C_SOLVE && x.name != "solution") continue;
         if (cls == SKIP || y.cls == SKIP || (cls == SAME_NT_ONLY && !same_nt)) continue;
         if (cls == SAME_NT_ONLY) cls = BITWISE;
         if (cls == REDUCTION) cls = same_nt ? BITWISE : ROUNDING;
